@@ -165,6 +165,49 @@ class EqNoHash(UserBase):
         return isinstance(other, EqNoHash)
 
 
+class BoolLen(UserBase):
+    """Defines BOTH __bool__ and __len__, and they disagree (Python's truth test prefers __bool__)."""
+
+    def __init__(self, truth=True, n=0):
+        self.truth, self.n = truth, n
+
+    def __bool__(self):
+        OPLOG.append((self._role, "__bool__"))
+        return self.truth
+
+    def __len__(self):
+        OPLOG.append((self._role, "__len__"))
+        return self.n
+
+
+class StrNeverEq(str):
+    """A str subclass whose == is False even for identical content."""
+
+    _role = "?"
+
+    def __eq__(self, other):
+        OPLOG.append((self._role, "__eq__"))
+        return False
+
+    def __ne__(self, other):
+        OPLOG.append((self._role, "__ne__"))
+        return True
+
+    __hash__ = str.__hash__
+
+
+class ContainsDisagreesWithIter(UserBase):
+    """__contains__ says no, although iteration yields an equal element."""
+
+    def __contains__(self, item):
+        OPLOG.append((self._role, "__contains__"))
+        return False
+
+    def __iter__(self):
+        OPLOG.append((self._role, "__iter__"))
+        return iter([1, 2])
+
+
 def _gen():
     yield 1
     yield 2
@@ -317,7 +360,11 @@ def alphabet(tier: str = "quick") -> list:
            V("u:len-only:0", "user:len-only", "user", lambda: LenOnly(0)),
            V("u:contains-only", "user:contains-only", "user", ContainsOnly),
            V("u:iter-only", "user:iter-only", "user", IterOnly),
-           V("u:eq-nohash", "user:eq-nohash", "user", EqNoHash)]
+           V("u:eq-nohash", "user:eq-nohash", "user", EqNoHash),
+           V("u:bool-true-len-0", "user:bool+len", "user", lambda: BoolLen(True, 0), sharp=True),
+           V("u:bool-false-len-2", "user:bool+len", "user", lambda: BoolLen(False, 2)),
+           V("u:str-never-eq:a", "user:str-subclass", "user", lambda: StrNeverEq("a")),
+           V("u:contains-no-iter-yes", "user:contains+iter", "user", ContainsDisagreesWithIter)]
     seen = set()
     for i, v in enumerate(vs):
         assert v.label not in seen, v.label
